@@ -337,6 +337,11 @@ func main() {
 		fmt.Print(sb.String())
 		return
 	}
+	// leave the file (and its mtime) alone when nothing changed: concurrent runs of the check share coq/Gen
+	if old, err := os.ReadFile(*out); err == nil && string(old) == sb.String() {
+		fmt.Printf("gen_mintburn4: %d sites, %d module accounts, %d errors (unchanged)\n", len(sites), len(perms), len(errs))
+		return
+	}
 	if err := os.WriteFile(*out, []byte(sb.String()), 0o644); err != nil {
 		fmt.Fprintln(os.Stderr, err)
 		os.Exit(1)
